@@ -55,6 +55,8 @@ def arrays_for_constants(prog):
 
 
 def oracle(prog, idx):
+    if not prog or prog[-1][0] != "back":
+        return []
     fails = []
     ex = progs.RealExec()
     du = progs.DualExec()
@@ -69,7 +71,9 @@ def oracle(prog, idx):
             if du.const.get(n) is not None and t.constant != du.const[n]:
                 if st[0] in INPLACE and n != st[1] and ex.v[st[1]].base is t and du.const[n] and not du.const[st[1]]:
                     # family: in-place update through a view that was *forced* non-constant on a constant base
-                    fails.append(("base-flag-flips-under-forced-nonconstant-view!", f"`{progs.to_line(st)}` turned the constant base t{n} non-constant"))
+                    w_ = (st[5] if st[0] == "outb" else st[4]) if st[0] in ("outb", "outu") else None
+                    how = st[0] + ("+where" if w_ is not None else "")
+                    fails.append((f"base-flag-flips-under-forced-nonconstant-view:{how}!", f"`{progs.to_line(st)}` turned the constant base t{n} non-constant"))
                     return fails
                 fails.append(("constant-rule", f"after `{progs.to_line(st)}` t{n}.constant = {t.constant}, the rule gives {du.const[n]}"))
                 return fails
@@ -82,7 +86,7 @@ def oracle(prog, idx):
             fails.append(("constant-has-grad", f"constant tensor t{n} has .grad = {np.asarray(t.grad).tolist()} after backward"))
             return fails
     # exact derivative (constants transmit nothing)
-    fails += engcheck.dual_oracle(prog)
+    fails += engcheck.dual_oracle(prog, check_flags=True)
     # twin with constants replaced by plain arrays
     q, replaced = arrays_for_constants(prog)
     if replaced:
@@ -148,7 +152,7 @@ def nontrivial(prog):
 
 
 def run(ctx: Ctx) -> Outcome:
-    n = ctx.n(500, 6000)
+    n = ctx.n(1500, 8000)
     out, results = engcheck.run_programs(ctx, n, dict(GEN, n_stmts=ctx.n(9, 16)), "oracle", nontrivial)
     out.rule = ("random programs with every mix of constant / non-constant leaves and constant=None/True/False on ops (45% "
                 "constants), views, in-place targets, one final backward; non-trivial = >=1 constant and >=1 non-constant "
